@@ -4,6 +4,8 @@ import (
 	"context"
 	"errors"
 	"fmt"
+	"github.com/sirupsen/logrus"
+	"github.com/zitadel/logging"
 	"io"
 	"math/rand"
 	"net/url"
@@ -544,7 +546,33 @@ func init() {
 			r.Require("random_chains", 1000)
 			r.Require("evaluations_after_outcome_change", 1000)
 			ovl := core.Workload{Name: "overlapping_evaluations", N: c.Pick(50, 500), Fn: c20Overlap}
-			return []core.Workload{enum, rnd, ovl}
+			// the same chains while the process logs at debug / trace level (what a step logs must not evaluate anything)
+			lvl := core.Workload{Name: "chains_at_verbose_log_levels", N: 2, Workers: 1, Fn: func(r *core.Run, idx int, _ *rand.Rand) {
+				logging.SetLevel([]logrus.Level{logrus.DebugLevel, logrus.TraceLevel}[idx])
+				defer logging.SetLevel(logrus.InfoLevel)
+				t := &c20trace{ev: make([]c20ev, 0, 64)}
+				var n int64
+				for a := range variants {
+					for b := range variants {
+						if !c20run(r, "chains_at_verbose_log_levels", idx, []*c20variant{&variants[a], &variants[b]}, t) {
+							return
+						}
+						n++
+						for cc := range variants {
+							if (a+b+cc)%3 != idx {
+								continue // a third of the triples per level
+							}
+							if !c20run(r, "chains_at_verbose_log_levels", idx, []*c20variant{&variants[a], &variants[b], &variants[cc]}, t) {
+								return
+							}
+							n++
+						}
+					}
+				}
+				r.EvalBulk(n, 0)
+				r.Count("chains_evaluated_at_a_verbose_log_level", n)
+			}}
+			return []core.Workload{enum, rnd, ovl, lvl}
 		},
 	})
 }
